@@ -426,7 +426,8 @@ def gen_wacc(rng, tier, shard, nshards, boost):
         else:
             cs = [rng.choice([-1.0, 0.0, 0.5, 1.0, 1.0]) for _ in range(k)]
         ws = [rng.randint(0, 128) / 32 for _ in range(k)]
-        yield {"cs": cs, "ws": ws, "scales": [rng.choice([0.125, 0.25, 0.5, 2.0, 4.0, 1024.0]) for _ in range(2)]}
+        yield {"cs": cs, "ws": ws, "scales": [rng.choice([0.125, 0.25, 0.5, 2.0, 4.0, 1024.0, 2.0 ** -20, 2.0 ** -40, 2.0 ** -60, 2.0 ** 40])
+                                               for _ in range(2)]}
 
 
 CHECKERS = {
